@@ -19,4 +19,26 @@ def assign (n : Nat) (apiRefused metaShows : Bool) : AssignOut :=
   if apiRefused then { returned := 0, err := true, added := 0 }
   else { returned := n, err := !metaShows, added := n }
 
+/-! ### the interfaces found attached at daemon start-up (`GetAttachedNetworkInterface`)
+
+The metadata lists them; the cloud is asked for their types whenever a type feature (trunk, ERDMA) is still to be resolved or
+interface tags are configured.  What the pool gets is each interface with two flags - trunk, RDMA - by which it later refuses to
+dispose it. -/
+
+inductive Ty where
+  | secondary | trunk | rdma
+  deriving DecidableEq, Repr
+
+/-- `preferred`: index of the interface the daemon was told is its trunk (it resolves the trunk feature without asking) -/
+def asksCloud (trunking erdma tags : Bool) (preferred : Option Nat) (n : Nat) : Bool :=
+  let trunkOpen := trunking && !(match preferred with | some i => decide (i < n) | none => false)
+  trunkOpen || erdma || tags
+
+/-- flags (trunk, rdma) per listed interface, by index -/
+def attached (trunking erdma tags : Bool) (preferred : Option Nat) (tys : List Ty) : List (Bool × Bool) :=
+  if asksCloud trunking erdma tags preferred tys.length then
+    tys.map fun t => (decide (t = .trunk), decide (t = .rdma))
+  else
+    (List.range tys.length).map fun i => (decide (preferred = some i), false)
+
 end Terway.Factory
